@@ -95,7 +95,7 @@ def gen_chem(tp):
         seen.add(v)
         out.append(v)
     return {"part": "chemical", "smiles": smi, "perm": tp.shuffle(range(n)),
-            "ids": out}
+            "ids": out, "charged": tp.chance(50)}
 
 
 def gen(data: bytes):
@@ -125,13 +125,18 @@ def shrink(case):
             yield {**case, "elements": e}
 
 
-def run_bo(elems, mat, prefix):
+def run_bo(elems, mat, prefix, charged=False):
     import numpy as np
     from stereomolgraph.algorithms.bond_orders import connectivity2bond_orders
     inp = np.array(mat, dtype=np.int8)
     keep = inp.copy()
     with guard(prefix):
-        bo, charges, unpaired = connectivity2bond_orders(list(elems), inp)
+        if charged:
+            # the caller allows charged fragments; the molecule is neutral
+            bo, charges, unpaired = connectivity2bond_orders(
+                list(elems), inp, allow_charged_fragments=True, charge=0)
+        else:
+            bo, charges, unpaired = connectivity2bond_orders(list(elems), inp)
     if not (inp == keep).all():
         raise Violation(f"{prefix}/input-modified", "")
     bo = np.asarray(bo)
@@ -255,7 +260,8 @@ def _check_chemical(ctx, case):
     for name, order in (("original", list(range(n))), ("permuted", perm)):
         e2 = [elems[p] for p in order]
         m2 = [[mat[order[i]][order[j]] for j in range(n)] for i in range(n)]
-        bo, charges, unpaired = run_bo(e2, m2, f"C18/chemical/{name}")
+        bo, charges, unpaired = run_bo(e2, m2, f"C18/chemical/{name}",
+                                       charged=bool(case.get("charged")))
         for i in range(n):
             if int(bo[i].sum()) != val[order[i]]:
                 raise Violation(
